@@ -13,6 +13,8 @@
 #include "esl_distance.h"
 #include "esl_dmatrix.h"
 #include "esl_quicksort.h"
+#include "esl_rand64.h"
+#include "esl_tree.h"
 #include <unistd.h>
 #include <signal.h>
 #include <fcntl.h>
@@ -131,6 +133,22 @@ static void out_filtered(ESL_MSA *msa, ESL_MSA *nw, int status)
   if (nw->alen != msa->alen) same = 0;
   o_reset(); o_add("ok same=%d kept=", same); o_ilist(kept, nw->nseq); h_out("%s", ob);
   free(kept);
+}
+
+/* every public field of ESL_MSAWEIGHT_CFG from the op's arguments (defaults = esl_msaweight_cfg_Create) */
+static ESL_MSAWEIGHT_CFG *cfg_from_args(void)
+{
+  ESL_MSAWEIGHT_CFG *cfg = esl_msaweight_cfg_Create();
+  cfg->ignore_rf  = (int) h_argi("irf", eslMSAWEIGHT_IGNORE_RF);
+  cfg->fragthresh = argf32("ft", eslMSAWEIGHT_FRAGTHRESH);
+  cfg->symfrac    = argf32("sf", eslMSAWEIGHT_SYMFRAC);
+  cfg->allow_samp = (int) h_argi("as", eslMSAWEIGHT_ALLOW_SAMP);
+  cfg->sampthresh = (int) h_argi("st", eslMSAWEIGHT_SAMPTHRESH);
+  cfg->nsamp      = (int) h_argi("ns", eslMSAWEIGHT_NSAMP);
+  cfg->maxfrag    = (int) h_argi("mf", eslMSAWEIGHT_MAXFRAG);
+  cfg->seed       = h_argu("seed", eslMSAWEIGHT_RNGSEED);
+  cfg->filterpref = (int) h_argi("pref", eslMSAWEIGHT_FILT_CONSCOVER);
+  return cfg;
 }
 
 static void do_op(void);
@@ -290,22 +308,115 @@ static void do_op(void)
   else if (!strcmp(op, "pbadv")) {
     ESL_MSA *msa = build_msa(); int st;
     ESL_MSAWEIGHT_CFG *cfg; ESL_MSAWEIGHT_DAT *dat;
-    if (!msa || g_mode == 0) { esl_msa_Destroy(msa); h_out("bad-op"); return; }
-    cfg = esl_msaweight_cfg_Create(); dat = esl_msaweight_dat_Create();
-    cfg->ignore_rf  = (int) h_argi("irf", 0);
-    cfg->fragthresh = argf32("ft", eslMSAWEIGHT_FRAGTHRESH);
-    cfg->symfrac    = argf32("sf", eslMSAWEIGHT_SYMFRAC);
+    if (!msa || g_mode == 0 || h_argi("ns", 1) < 1) { esl_msa_Destroy(msa); h_out("bad-op"); return; }
+    cfg = cfg_from_args(); dat = esl_msaweight_dat_Create();
     st = esl_msaweight_PB_adv(cfg, msa, dat);
     if (st != eslOK || h_exception_seen) h_out("%s exc=%d", h_status(st), h_exception_seen ? 1 : 0);
     else {
       o_reset();
-      o_add("ok hw=%d rf=%d all=%d allcols=%d samp=%d nfrag=%d ncons=%d cons=", (msa->flags & eslMSA_HASWGTS) ? 1 : 0,
-            dat->cons_by_rf, dat->cons_by_all, dat->cons_allcols, dat->cons_by_sample, dat->all_nfrag, dat->ncons);
+      o_add("ok hw=%d rf=%d all=%d allcols=%d samp=%d nfrag=%d rej=%d snfrag=%d ncons=%d cons=", (msa->flags & eslMSA_HASWGTS) ? 1 : 0,
+            dat->cons_by_rf, dat->cons_by_all, dat->cons_allcols, dat->cons_by_sample, dat->all_nfrag,
+            dat->rejected_sample, dat->samp_nfrag, dat->ncons);
       o_ilist(dat->conscols, dat->conscols ? dat->ncons : 0);
       o_add(" w="); o_dlist(msa->wgt, msa->nseq);
       h_out("%s", ob);
     }
     esl_msaweight_dat_Destroy(dat); esl_msaweight_cfg_Destroy(cfg); esl_msa_Destroy(msa);
+  }
+  else if (!strcmp(op, "pairmatch") || !strcmp(op, "jc")) {
+    int i = (int) h_argi("i", 0), j = (int) h_argi("j", 0), st, nm = -1, n = -1; double pm = -1., d = -1., v = -1.;
+    int K = (g_mode == 0) ? (int) h_argi("k", 4) : g_abc->K;
+    ESL_MSA *msa = build_msa();
+    if (!msa || i < 0 || j < 0 || i >= g_nrow || j >= g_nrow || K < 2) { esl_msa_Destroy(msa); h_out("bad-op"); return; }
+    if (!strcmp(op, "pairmatch")) {
+      if (g_mode == 0) st = esl_dst_CPairMatch(msa->aseq[i], msa->aseq[j], &pm, &nm, &n);
+      else             st = esl_dst_XPairMatch(g_abc, msa->ax[i], msa->ax[j], &pm, &nm, &n);
+      h_out("%s %s %d %d", h_status(st), h_dbits(pm), nm, n);
+    } else {
+      if (g_mode == 0) st = esl_dst_CJukesCantor(K, msa->aseq[i], msa->aseq[j], &d, &v);
+      else             st = esl_dst_XJukesCantor(g_abc, msa->ax[i], msa->ax[j], &d, &v);
+      o_reset(); o_add("%s %s", h_status(st), h_dbits(d)); o_add(" %s", h_dbits(v)); h_out("%s", ob);
+    }
+    esl_msa_Destroy(msa);
+  }
+  else if (!strcmp(op, "distpair")) {   /* PairMatch and JukesCantor on two free-standing sequences, possibly of unequal length */
+    int64_t na, nb, i; int st1, st2, nm = -1, n = -1; double pm = -1., d = -1., v = -1.;
+    int K = (g_mode == 0) ? (int) h_argi("k", 4) : g_abc->K;
+    unsigned char *a, *b; int bad = 0;
+    if (!h_arg("a") || !h_arg("b") || K < 2) { h_out("bad-op"); return; }
+    a = h_unhex(h_arg("a"), &na); b = h_unhex(h_arg("b"), &nb);
+    for (i = 0; i < na; i++) if ((g_mode == 0 && a[i] == 0) || (g_mode != 0 && a[i] >= g_abc->Kp)) bad = 1;
+    for (i = 0; i < nb; i++) if ((g_mode == 0 && b[i] == 0) || (g_mode != 0 && b[i] >= g_abc->Kp)) bad = 1;
+    if (bad) { free(a); free(b); h_out("bad-op"); return; }
+    if (g_mode == 0) {
+      char *x = malloc(na + 1), *y = malloc(nb + 1);
+      memcpy(x, a, na); x[na] = 0; memcpy(y, b, nb); y[nb] = 0;
+      st1 = esl_dst_CPairMatch(x, y, &pm, &nm, &n);
+      st2 = esl_dst_CJukesCantor(K, x, y, &d, &v);
+      free(x); free(y);
+    } else {
+      ESL_DSQ *x = malloc(na + 2), *y = malloc(nb + 2);
+      x[0] = x[na+1] = y[0] = y[nb+1] = eslDSQ_SENTINEL;
+      memcpy(x + 1, a, na); memcpy(y + 1, b, nb);
+      st1 = esl_dst_XPairMatch(g_abc, x, y, &pm, &nm, &n);
+      st2 = esl_dst_XJukesCantor(g_abc, x, y, &d, &v);
+      free(x); free(y);
+    }
+    o_reset(); o_add("%s %s %d %d / ", h_status(st1), h_dbits(pm), nm, n);
+    o_add("%s %s", h_status(st2), h_dbits(d)); o_add(" %s", h_dbits(v));
+    h_out("%s", ob);
+    free(a); free(b);
+  }
+  else if (!strcmp(op, "avgid") || !strcmp(op, "avgmatch")) {
+    ESL_MSA *msa = build_msa(); int st; double avg = -1.; int maxc = (int) h_argi("max", 0);
+    if (!msa || maxc < 1) { esl_msa_Destroy(msa); h_out("bad-op"); return; }
+    if (!strcmp(op, "avgid")) st = (g_mode == 0) ? esl_dst_CAverageId(msa->aseq, msa->nseq, maxc, &avg)    : esl_dst_XAverageId(g_abc, msa->ax, msa->nseq, maxc, &avg);
+    else                      st = (g_mode == 0) ? esl_dst_CAverageMatch(msa->aseq, msa->nseq, maxc, &avg) : esl_dst_XAverageMatch(g_abc, msa->ax, msa->nseq, maxc, &avg);
+    h_out("%s %s", h_status(st), h_dbits(avg));
+    esl_msa_Destroy(msa);
+  }
+  else if (!strcmp(op, "upgma")) {   /* esl_tree_UPGMA on an explicit symmetric matrix (upper triangle given row-major) */
+    int n = (int) h_argi("n", 0), i, j, st, valid; const char *dl = h_arg("d"), *p; ESL_DMATRIX *D; ESL_TREE *T = NULL;
+    int cnt = 0; char errbuf[eslERRBUFSIZE];
+    if (n < 2 || !dl) { h_out("bad-op"); return; }
+    for (p = dl, cnt = 1; *p; p++) if (*p == ',') cnt++;
+    if (cnt != n * (n - 1) / 2) { h_out("bad-op"); return; }
+    D = esl_dmatrix_Create(n, n);
+    p = dl;
+    for (i = 0; i < n; i++) {
+      D->mx[i][i] = 0.;
+      for (j = i + 1; j < n; j++) {
+        uint64_t u = strtoull(p, NULL, 16); double v; memcpy(&v, &u, 8);
+        D->mx[i][j] = D->mx[j][i] = v;
+        p = strchr(p, ','); if (p) p++;
+      }
+    }
+    st = esl_tree_UPGMA(D, &T);
+    if (st != eslOK || !T) h_out("%s", h_status(st));
+    else {
+      esl_tree_SetTaxaParents(T); esl_tree_SetCladesizes(T);
+      valid = (esl_tree_Validate(T, errbuf) == eslOK);
+      o_reset(); o_add("ok valid=%d left=", valid); o_ilist(T->left, n - 1);
+      o_add(" right=");  o_ilist(T->right, n - 1);
+      o_add(" parent="); o_ilist(T->parent, n - 1);
+      o_add(" ld="); o_dlist(T->ld, n - 1);
+      o_add(" rd="); o_dlist(T->rd, n - 1);
+      o_add(" tp="); o_ilist(T->taxaparent, n);
+      o_add(" cs="); o_ilist(T->cladesize, n - 1);
+      h_out("%s", ob);
+    }
+    esl_tree_Destroy(T); esl_dmatrix_Destroy(D);
+  }
+  else if (!strcmp(op, "deal64")) {   /* the sampler consensus_by_sample uses, by itself */
+    int64_t m = h_argi("m", 0), n = h_argi("n", 0), i; int64_t *deal; ESL_RAND64 *rng;
+    if (m < 1 || m > n) { h_out("bad-op"); return; }
+    deal = malloc(sizeof(int64_t) * m);
+    rng = esl_rand64_Create(h_argu("seed", eslMSAWEIGHT_RNGSEED));
+    esl_rand64_Deal(rng, m, n, deal);
+    o_reset(); o_add("ok ");
+    for (i = 0; i < m; i++) o_add(i ? ",%lld" : "%lld", (long long) deal[i]);
+    h_out("%s", ob);
+    esl_rand64_Destroy(rng); free(deal);
   }
   else if (!strcmp(op, "idfilter")) {
     ESL_MSA *msa = build_msa(), *nw = NULL; int st;
@@ -316,13 +427,9 @@ static void do_op(void)
   }
   else if (!strcmp(op, "idfilteradv")) {
     ESL_MSA *msa = build_msa(), *nw = NULL; int st; ESL_MSAWEIGHT_CFG *cfg;
-    if (!msa || g_mode == 0) { esl_msa_Destroy(msa); h_out("bad-op"); return; }
-    cfg = esl_msaweight_cfg_Create();
-    cfg->ignore_rf  = (int) h_argi("irf", 0);
-    cfg->fragthresh = argf32("ft", eslMSAWEIGHT_FRAGTHRESH);
-    cfg->symfrac    = argf32("sf", eslMSAWEIGHT_SYMFRAC);
-    cfg->filterpref = (int) h_argi("pref", eslMSAWEIGHT_FILT_CONSCOVER);
-    cfg->seed       = h_argu("seed", eslMSAWEIGHT_RNGSEED);
+    int pref = (int) h_argi("pref", eslMSAWEIGHT_FILT_CONSCOVER);
+    if (!msa || g_mode == 0 || pref < 1 || pref > 3 || h_argi("ns", 1) < 1) { esl_msa_Destroy(msa); h_out("bad-op"); return; }
+    cfg = cfg_from_args();
     st = esl_msaweight_IDFilter_adv(cfg, msa, h_argbits("maxid"), &nw);
     out_filtered(msa, nw, st);
     esl_msaweight_cfg_Destroy(cfg);
